@@ -21,7 +21,8 @@ RULE = ('operand pairs of normal single-precision encodings: every exponent gap 
         'operands, random pairs; integers 0, +-1, +-2**k, +-(2**k +- 1), INT_MIN, INT_MAX, 2**24 +- 1, random of every bit length; '
         'float->int operands with exponent fields 100..165 x mantissa boundaries, exact odd/even integers, k+0.5, +-2**31 neighbours. '
         'evaluations = block outputs judged.  Non-trivial: operand pair with exponent gap >= 1 or opposite signs; integer with >= 25 '
-        'significant bits; float->int operand with |x| >= 1.  Output-width class: a reduced pass (every 32nd pair; 64th in thorough) with all flag '
+        'significant bits; float->int operand with |x| >= 1.  History class: the long-lived rig driven with returns to earlier operands (A,A; A,swap,A; A,pair sharing one operand,A; A,B,A,B for every pair of a 6-value pool; '
+        'a walk on 6-value pools of all four ports), same judges.  Output-width class: a reduced pass (every 32nd pair; 64th in thorough) with all flag '
         'output wires 2, 4 and 8 bits wide, same judges.  Distinct by content (a, b | integer | pattern); in the thorough tier only the cases whose content '
         'hash is 0 mod 4 are registered, so distinct_nontrivial is a lower bound there (keeps the merged set small)')
 SHARDS = {'quick': 1, 'thorough': 16}
@@ -610,6 +611,72 @@ def run_check(run, tier, seed, shard):
         if npairs % 2503 == 1:
             run.sample(dict(kind='step', pair_class=cls, a=hex(b), b=hex(a), exponent_gap=gap, ia=i, fa=hex(f), note='second step of the pair (operands swapped)',
                             observed={k: (hex(v) if isinstance(v, int) and v > 9 else v) for k, v in (outs[1] if outs else {}).items()}))
+    # ---- history class: the SAME long-lived rig is driven with sequences that keep returning to earlier operands (A,A; A,B,A; A,swap(A),A;
+    # A,pair sharing one operand,A; a walk on a small pool), every port drawn from a pool of 6 values so that returns are frequent.  The blocks
+    # are combinational: the answer for an operand tuple must not depend on what was applied before; same judges as the main pass
+    hist = Stats()
+    hrnd = rng(seed, 'C13', 'history', shard)
+    pa = [0x3F800000, 0xBF800000, enc(0, 1, 0), enc(1, 254, M23)] + [enc(hrnd.getrandbits(1), hrnd.randint(100, 150), hrnd.getrandbits(23)) for _ in range(2)]
+    pi = [0, 1, -1, -0x80000000] + [hrnd.choice(int_boundary()), hrnd.getrandbits(32) - (1 << 31)]
+    fb = f2i_boundary()
+    pf = [0x3F800000, 0xBF800000, 0x4F000000, 0x3F000000] + [hrnd.choice(fb), hrnd.choice(fb)]
+
+    def hseq():
+        for x in pa:
+            for y in pa:
+                A = (x, y)
+                x2, y2 = hrnd.choice([v for v in pa if v != x]), hrnd.choice([v for v in pa if v != y])
+                for shape, seq in (('A_A', (A, A)), ('A_swap_A', (A, (y, x), A)), ('A_share_a_A', (A, (x, y2), A)), ('A_share_b_A', (A, (x2, y), A)),
+                                   ('A_B_A_B', (A, (x2, y2), A, (x2, y2)))):
+                    # the integer / float->int ports: held, or changed and brought back, independently of the pair
+                    i0, f0 = hrnd.choice(pi), hrnd.choice(pf)
+                    for k, q in enumerate(seq):
+                        back = k == 0 or k == len(seq) - 1 or hrnd.getrandbits(1)
+                        yield shape, q[0], q[1], (i0 if back else hrnd.choice(pi)), (f0 if back else hrnd.choice(pf))
+        x, y, i, f = pa[0], pa[1], pi[0], pf[0]
+        for _ in range(600 if tier == 'quick' else 6000):
+            k = hrnd.randrange(5)
+            if k == 0:
+                x = hrnd.choice(pa)
+            elif k == 1:
+                y = hrnd.choice(pa)
+            elif k == 2:
+                i = hrnd.choice(pi)
+            elif k == 3:
+                f = hrnd.choice(pf)
+            yield 'pool_walk', x, y, i, f
+    seen_t = set()
+    trail = []
+    if shard is None or shard[0] == 0:
+        for shape, x, y, i, f in hseq():
+            if run.too_many:
+                break
+            trail.append([hex(x), hex(y), i, hex(f)])
+            try:
+                out = R.step(x, y, i, f)
+            except Exception as e:
+                run.violation('fp_sim_raises', dict(relation='raises:' + type(e).__name__, workload='history'), dict(kind='history', seq=trail[-32:]),
+                              observed=repr(e)[:200], what='propagateAll raises %r in a history workload' % (e,))
+                break
+            viols = judge_pair(x, y, out, stats) + judge_int(i, out, stats) + judge_f2i(f, out, stats)
+            run.ev(6)
+            hist['steps_' + shape] += 1
+            for nm, key in (('pair', (x, y)), ('integer', ('i', i)), ('float_to_int_operand', ('f', f))):
+                if key in seen_t:
+                    hist['step_returns_to_an_earlier_' + nm] += 1
+                seen_t.add(key)
+            nt(hash((4, len(trail), x, y, i, f)))
+            if viols:
+                for v in viols:
+                    v['fields'] = dict(v['fields'], workload='history')
+                    v['what'] += ' -- step %d of a history workload on the long-lived rig (%s); previous steps: %s' % (len(trail) - 1, shape, trail[-4:-1])
+                report(run, dict(kind='history', seq=trail[-32:]), viols)
+    run.extra['history_class'] = dict(hist)
+    if (shard is None or shard[0] == 0) and not run.too_many and not run.violations:
+        for k in ('steps_A_A', 'steps_A_swap_A', 'steps_A_share_a_A', 'steps_A_share_b_A', 'steps_A_B_A_B', 'steps_pool_walk',
+                  'step_returns_to_an_earlier_pair', 'step_returns_to_an_earlier_integer', 'step_returns_to_an_earlier_float_to_int_operand'):
+            if not hist[k]:
+                run.inconclusive.append('history class never exercised: %s' % k)
     # ---- output-width class: the same blocks with every flag output on a wire of 2, 4, 8 bits (1 bit is the main pass above);
     # each flag must still read the zero-extended 0/1, so the same judges apply unchanged
     wide = Stats()
@@ -682,7 +749,14 @@ def replay(run, case):
     stats = Stats()
     hexi = lambda v: int(v, 16) if isinstance(v, str) else v
     viols = []
-    if c['kind'] == 'step':
+    if c['kind'] == 'history':
+        for j, (a, b, i, f) in enumerate(c['seq']):
+            a, b, f = hexi(a), hexi(b), hexi(f)
+            out = R.step(a, b, i, f)
+            vv = judge_pair(a, b, out, stats) + judge_int(i, out, stats) + judge_f2i(f, out, stats)
+            print('replay history step %d a=%#010x b=%#010x ia=%d fa=%#010x ->' % (j, a, b, i, f), out)
+            viols += vv
+    elif c['kind'] == 'step':
         a, b, i, f = hexi(c['a']), hexi(c['b']), c['ia'], hexi(c['fa'])
         out = R.step(a, b, i, f)
         viols = judge_pair(a, b, out, stats) + judge_int(i, out, stats) + judge_f2i(f, out, stats)
